@@ -127,6 +127,9 @@ namespace nmtools::index
 
             if ((minus_1_count == 0) && (src_numel != dst_numel)) {
                 return return_t{meta::Nothing};
+            } else if (dst_numel == 0) {
+                // a zero extent next to -1 (e.g. (0,-1)): can't infer the unknown extent, avoid division by zero
+                return return_t{meta::Nothing};
             } else if (static_cast<bool>(src_numel % dst_numel)) {
                 return return_t{meta::Nothing};
             }
